@@ -214,3 +214,88 @@ def c06_guard_parse(tier, seed):
             fails.append({"kind": "raw-exception", "guard": f, "impl": ir})
     return {"evaluations": len(allf), "nontrivial": nontrivial, "ties": ties, "fails": fails, "samples": [{"guard": bad[2]}], "exhaustive": False,
             "what": "GuardDefinition(config) vs parseGuard on generated formulas and malformed shapes"}
+
+
+# ------------------------------------------------------------------------------------------- C06 (params)
+def c06_param_guards(tier, seed):
+    """parameterised guards receive THEIR OWN params: candidate lists / ancestor chains / parallel regions
+    that use one named predicate with different params (monitor on the real code; the model's guard
+    environment is indexed by name only, so there is no tie here)"""
+    from xstate_statemachine import create_machine, SyncInterpreter, MachineLogic
+    import asyncio
+    from . import impl
+    rng = random.Random(seed + 77)
+    n = 150 if tier == "quick" else 1200
+    fails, samples = [], []
+    nontrivial = 0
+
+    def at_least(ctx, ev, params):
+        return ctx["score"] >= params["n"]
+
+    def below(ctx, ev, params):
+        return ctx["score"] < params["n"]
+    for i in range(n):
+        score = rng.randint(0, 9)
+        shape = rng.choice(["list", "chain", "regions"])
+        gname = rng.choice(["atLeast", "below"])
+        gfun = at_least if gname == "atLeast" else below
+        ns = [rng.randint(0, 10) for _ in range(3)]
+        def g(k):
+            p = {"n": ns[k]}
+            return rng.choice([{"type": gname, "params": p}, {"type": "and", "children": [{"type": gname, "params": p}]},
+                               {"type": "not", "children": [{"type": "not", "children": [{"type": gname, "params": p}]}]}])
+        if shape == "list":
+            m = {"id": "m", "initial": "a", "context": {"score": score}, "states": {
+                "a": {"on": {"GO": [{"target": "t0", "guard": g(0)}, {"target": "t1", "guard": g(1)}, {"target": "t2", "guard": g(2)}, {"target": "fb"}]}},
+                "t0": {}, "t1": {}, "t2": {}, "fb": {}}}
+            exp_idx = next((k for k in range(3) if gfun({"score": score}, None, {"n": ns[k]})), None)
+            expected = ["m", "m.t%d" % exp_idx] if exp_idx is not None else ["m", "m.fb"]
+        elif shape == "chain":
+            m = {"id": "m", "initial": "p", "context": {"score": score}, "on": {"GO": {"target": "#m.root_t", "guard": g(2)}}, "states": {
+                "p": {"initial": "c", "on": {"GO": {"target": "#m.par_t", "guard": g(1)}}, "states": {"c": {"on": {"GO": {"target": "#m.child_t", "guard": g(0)}}}}},
+                "child_t": {}, "par_t": {}, "root_t": {}}}
+            names = ["child_t", "par_t", "root_t"]
+            exp_idx = next((k for k in range(3) if gfun({"score": score}, None, {"n": ns[k]})), None)
+            expected = ["m", "m." + names[exp_idx]] if exp_idx is not None else ["m", "m.p", "m.p.c"]
+        else:
+            m = {"id": "m", "type": "parallel", "context": {"score": score}, "states": {
+                "r0": {"initial": "w", "states": {"w": {"on": {"GO": {"target": "y", "guard": g(0)}}}, "y": {}}},
+                "r1": {"initial": "w", "states": {"w": {"on": {"GO": {"target": "y", "guard": g(1)}}}, "y": {}}},
+                "r2": {"initial": "w", "states": {"w": {"on": {"GO": {"target": "y", "guard": g(2)}}}, "y": {}}}}}
+            expected = ["m"] + sorted(x for k in range(3) for x in ["m.r%d" % k, "m.r%d.%s" % (k, "y" if gfun({"score": score}, None, {"n": ns[k]}) else "w")])
+        if len(set(ns)) > 1:
+            nontrivial += 1
+        for flavor in ("sync", "async"):
+            logic = MachineLogic(guards={"atLeast": at_least, "below": below})
+            try:
+                if flavor == "sync":
+                    it = SyncInterpreter(create_machine(json.loads(json.dumps(m)), logic=logic)).start()
+                    it.send("GO")
+                    got = sorted(x.id for x in it._active_state_nodes)
+                    it.stop()
+                else:
+                    async def go():
+                        from xstate_statemachine import Interpreter
+                        it = Interpreter(create_machine(json.loads(json.dumps(m)), logic=logic))
+                        await it.start()
+                        await it.send("GO")
+                        await impl._drain(it)
+                        r = sorted(x.id for x in it._active_state_nodes)
+                        await it.stop()
+                        return r
+                    loop = impl.VirtualLoop()
+                    asyncio.set_event_loop(loop)
+                    try:
+                        got = loop.run_until_complete(go())
+                    finally:
+                        loop.close()
+                        asyncio.set_event_loop(None)
+            except Exception as e:
+                got = ["EXC:" + type(e).__name__]
+            if got != sorted(expected):
+                fails.append({"kind": "guard-params", "flavor": flavor, "case": {"id": f"pg-{seed}-{i}", "machine": m, "guards": {}, "events": ["GO"]},
+                              "detail": f"{shape}: score={score} thresholds={ns} predicate={gname}: expected {sorted(expected)} got {got}"})
+        if len(samples) < 2:
+            samples.append({"machine": m, "expected": expected})
+    return {"evaluations": 2 * n, "nontrivial": 2 * nontrivial, "ties": [], "fails": fails, "samples": samples, "exhaustive": False,
+            "what": "one named predicate with different params across a candidate list / an ancestor chain / parallel regions: each transition must be decided by its own params (both engines)"}
